@@ -27,7 +27,7 @@ CLAIMED = {
     "C11": ("proof", "two-state proofs on the real code: adding a feed unit outside the baseline leaves the modelled frames unchanged and adds exactly one 'unexpected' row whose county/district are the right id components; counted votes, prediction and both bounds of exactly its groups grow by exactly its votes at state/county/district level, classification tables unchanged, new groups created; bootstrap totality (no TypeError) proved with the aggregate units; bootstrap value-independence bounded", "V8 (id shapes); the bootstrap new-state case is a recorded known finding (F9)", TECH + "; relational (two-state) VCs, sum_split / singleton lemma instances", "DESIGN 4 C11"),
     "C12": ("proof", "effect contracts derived from the real ASTs of everything reachable from get_estimates / the national summary: every RNG construction, DataFrame.sample and scipy bootstrap is seeded from the seed setting, draws come from the per-model generator, no ambient inputs, set iteration order never reaches a value, mutable defaults are not mutated, client fields are written before read, a fresh model per run; plus bounded repeat runs of the real client (not counted as proved)", "call resolution by name (over-approximation); library calls outside the classification table are assumed to be functions of their arguments; same-process float reduction order", "contract-based deductive verification: effect/guard contracts discharged by a sound derivation over the real package ASTs (pyvc.effects) + bounded real runs", "DESIGN 4 C12"),
     "C18": ("proof", "every persistence site reachable from the two entry points is inventoried from the ASTs and its interprocedural guard implies the option the statement names (z3 over guard atoms); with no options every guard is false; the gaussian write flag IS the 'conformalization' option (real __init__ chains executed); live results are written before the gate; one put per returned table, two for live results, one per gaussian object; every key is whitespace-free under root/election id", "sink primitives listed in contracts/C18.py; components of keys are whitespace-free (precondition); boto3/file system not modelled", "contract-based deductive verification: guard derivation over the package call graph + symbolic execution of the writer functions, z3", "DESIGN 4 C18"),
-    "C19": ("proof", "list_versions proved for all listings, page sizes and windows (open or closed) by induction with the function's own contract at the recursive call: exactly the versions in the window after the marker, each once, in order; the early stop is justified by newest-first order; get() is covered by an exhaustive-small-scope bounded stand-in on the real code (NOT counted as proved)", "A-S3 service model (assumed); generator/queue/try code only bounded", "contract-based deductive verification (recursive contract, sub-list views) + bounded stand-in for get()", "DESIGN 4 C19"),
+    "C19": ("proof", "list_versions proved for all listings, page sizes and windows (open or closed) by induction with the function's own contract at the recursive call: exactly the versions in the window after the marker, each once, in order; the early stop is justified by newest-first order; get / make_request / wait_for_versions proved from the real AST for any listing and any subset of failing downloads: every sample-th listed version requested once with its own VersionId and size, failing downloads skipped without aborting, every surviving file stamped with its own version's modification time in the configured timezone, None when the window is empty, an error only when no sampled download succeeded", "A-S3 service model (assumed); get(): generator run eagerly, queue.Queue as single-threaded FIFO, TransferManager / pandas constructors as stated contracts, versions[::k] as 'rank multiple of k'; a bounded companion runs the real queue / pandas code", TECH, "DESIGN 0.4 / 4 C19"),
     "C20": ("proof", "the retry binds against the INSTALLED QuantileRegressionSolver.fit signature, repeats x, y, tau, weights, lambda_, intercept with normalize_weights=False, both failure kinds reach the single non-re-raising handler, every model fit goes through fit_model", "A-QR (how failures surface); numerical sameness of the re-solve not decided", TECH, "DESIGN 4 C20"),
 }
 REASON_WIP = "check under construction in this session: no contract-based check is registered yet (see DESIGN.md section 4 for the planned contracts)"
